@@ -134,7 +134,7 @@ PROPS = {
     "C04": {
         "pf": True,
         "n": {"quick": 250, "thorough": 8000},
-        "cone": ["Bytes", "BytesLemmas", "Regex", "Generated", "Channel", "Network", "NetworkAbs", "NetworkLemmas", "NetworkTwins", "NetworkHistory", "NetworkHistoryLemmas", "Replay", "DecideLang", "GeneratedSkel", "DecideLemmas", "DecidePA", "DecideLemmas", "NetworkSrc", "PlatformTypes", "AcquireSrc"],
+        "cone": ["Bytes", "BytesLemmas", "Regex", "Generated", "Channel", "Network", "NetworkAbs", "NetworkLemmas", "NetworkTwins", "NetworkHistory", "NetworkHistoryLemmas", "Replay", "DecideLang", "GeneratedSkel", "DecideLemmas", "DecidePA", "DecideLemmas", "NetworkSrc", "PlatformTypes", "AcquireSrc", "PrivGraphSrc"],
         "rx": True,
         "rule": "network.Driver over the simulated transport against a privilege-tree device: random rooted labelled trees of 1-6 levels (with and "
                 "without authenticated edges, with/without secondary secret), every kind of start mode / default level, histories of 1-6 operations "
@@ -292,7 +292,7 @@ PROPS = {
     "C17": {
         "n": {"quick": 1, "thorough": 1},
         "exhaustive": True,
-        "cone": ["Bytes", "Regex", "Generated", "Channel", "Network", "NetworkAbs", "NetworkLemmas", "Platform", "PlatformLemmas", "Replay", "NetworkTwins", "PlatformNav", "PlatformMerge", "RegexLemmas", "PlatformLang", "BytesLemmas", "PlatformTypes"],
+        "cone": ["Bytes", "Regex", "Generated", "Channel", "Network", "NetworkAbs", "NetworkLemmas", "Platform", "PlatformLemmas", "Replay", "NetworkTwins", "PlatformNav", "PlatformMerge", "RegexLemmas", "PlatformLang", "BytesLemmas", "PlatformTypes", "DecideLang", "GeneratedSkel", "PrivGraphSrc"],
         "rx": True,
         "rule": "exhaustive: every advertised platform name and every embedded definition file (documentation example excluded) is loaded with "
                 "platform.NewPlatform / NewPlatformVariant; for network definitions the driver runs against a device built from the definition "
